@@ -218,6 +218,7 @@ def run(chk, repo, tier):
     chk.clause('C04-g', 'reader/writer slot agreement of Plane.tilt', 1)
     chk.clause('C04-h', 'first-order dispersion is inverted exactly; displacement lies on the trace', 3)
     chk.clause('C04-i', 'tilt basis: [1, +r*px_row, -c*px_col]', 2)
+    chk.clause('C04-j', 'least-squares fit against the masked piston/tip/tilt basis; per segment inside its mask; pieces summed', 7)
     chk.not_decided += ['sample-for-sample agreement of the four tilt representations', 'numerical arc length for order > 1']
     tilt_chain(chk, repo, 'C04-a')
     additive(chk, repo, 'C04-c')
@@ -234,6 +235,9 @@ def run(chk, repo, tier):
             if clause == 'C04-e':
                 return self.chk.ob(clause, *a, **k)
     contracts(_Only(chk), repo, 'x', 'x', 'x', 'x', clause_conserve='C04-e')
+    from .extra_rules import fit_tilt_rules, ptt_mask_rule
+    fit_tilt_rules(chk, repo, 'C04-j')
+    ptt_mask_rule(chk, repo, 'C04-j')
     fit_tilt_rule(chk, repo, 'C04-f')
     common.tilt_slot_agreement(chk, repo, 'C04-g')
     dispersion_rule(chk, repo, 'C04-h')
